@@ -27,7 +27,7 @@ META = {
                     "hook ANKIT76_AD_AFQMC_VERIF=1 exposes imp_fun/theta (observation only)"],
     "bounds": {"quick": "(2;1,1;1) and (3;1,1;2) uhf+unrestricted, (2;1,1;1),(3;1,1;1) rhf+restricted, noci(2) and cisd trials at (2;1,1;1)/(3;1,1;1); "
                         "n_exp_terms 6; every h0, symmetric h1 per spin, symmetric Cholesky matrices, rdm1 (mean-field shift), E_shift, walker symbolic",
-               "thorough": "adds (3;2,1;2), (3;1,1;3) and ucisd"},
+               "thorough": "adds (3;1,1;2), (2;1,1;3), ucisd at (2;1,1;1), noci at (2;1,1;2), n_exp_terms 4"},
     "outside": "orders >= s^4 (dt^2); convergence radius in dt; more than 3 Cholesky matrices; accuracy of exp/cos/angle themselves",
 }
 
@@ -216,8 +216,9 @@ def cases(tier):
          ("rhf", 2, (1, 1), 1, True, {}), ("rhf", 3, (1, 1), 1, True, {}), ("rhf", 2, (1, 1), 2, True, {}),
          ("noci", 2, (1, 1), 1, False, {"ndets": 2}), ("cisd", 3, (1, 1), 1, True, {}), ("uhf", 2, (1, 1), 1, False, {"nexp": 3})]
     if tier == "thorough":
-        A += [("uhf", 3, (1, 1), 2, False, {}), ("uhf", 3, (2, 1), 1, False, {}), ("uhf", 2, (1, 1), 3, False, {}), ("ucisd", 3, (1, 1), 1, False, {"moB_ident": 1}),
-              ("rhf", 3, (1, 1), 2, True, {}), ("uhf", 2, (1, 1), 1, False, {"nexp": 4}), ("noci", 3, (1, 1), 1, False, {"ndets": 2})]
+        # measured over budget and therefore not run: uhf (3;2,1;1), ucisd (3;1,1;1), noci(2) (3;1,1;1)
+        A += [("uhf", 3, (1, 1), 2, False, {}), ("uhf", 2, (1, 1), 3, False, {}), ("ucisd", 2, (1, 1), 1, False, {"moB_ident": 1}),
+              ("rhf", 3, (1, 1), 2, True, {}), ("uhf", 2, (1, 1), 1, False, {"nexp": 4}), ("noci", 2, (1, 1), 2, False, {"ndets": 2})]
     for kind, norb, nelec, nchol, restricted, opt in A:
         opt = dict(opt)
         nexp = opt.pop("nexp", 6)
